@@ -174,6 +174,17 @@ CLAIMED = {
            "than verified: the regexp engine (recognisers transcribed by hand), fmt's float formatting (modelled for decimal values, checked on the boundary table), type/format mapping through Go types, "
            "enum and pattern text (exercised only)."),
  },
+ "C19": {
+  "technique": "Lean 4 proof (decision logic of the two YAML write paths against the reader, for every resolution function of the YAML library and every string) + every spec-emitting command run on all input/output renderings of specs seeded with ambiguous scalars",
+  "text": ("Proof of the decision logic, partial: the plain-scalar resolution of yaml.v3 is a PARAMETER of the model; scalar_rt_node / scalar_rt_value prove for EVERY resolution function, EVERY lexical rule of the "
+           "emitter and EVERY string other than `<<` that what either write path prints (node encoder of writeToFile, value encoder of generate spec) reads back as the same string, because the writer quotes "
+           "exactly when the reader's resolution would not give a string; key_rt covers keys (status codes, numeric-looking property names); merge_unreadable proves the one asymmetric string (known finding). "
+           "Tie: expand / flatten / mixin with JSON and YAML input x json / yaml output x compact / pretty and init spec on specs seeded with 24 of 80 ambiguous scalars as values and keys; the YAML output read "
+           "with the toolkit's own reader must be JSON-equal to the JSON output, outputs for JSON and YAML input must be equal, every scalar printed plain must read back as itself."),
+  "note": ("Trusted: Lean kernel + audited axioms; the CLI built from the working tree; yaml.v3's value encoder for producing YAML INPUT files; swag.YAMLDoc as reader; DeepEqual on decoded JSON. Modelled rather "
+           "than verified: yaml.v3 (resolution abstract, scanner/emitter assumed inverse on content per style), number formatting (exercised). A command that fails identically on every rendering of a spec "
+           "is outside this property and only counted."),
+ },
 }
 NOT_YET = {
 }
